@@ -304,6 +304,7 @@ theorem gc_outer_body (fuel : Nat) (rev : Nat → Nat) (priv0 : Loc → Option V
         cases c <;> simp [Ctl.goesOn] at hc <;> simp only [GcR] at hR <;> simp only [Ctl.afterLoop] at hctl <;> subst hctl
         · -- break: the unlink cmpxchg
           obtain ⟨hrel1, hnx1, hpend1, hpc1, hO1'⟩ := hR
+          dsimp only
           generalize hE2 : exec fuel gcPost env1 inp1 = r2
           obtain ⟨o2, rfl, ls2, hl2, hfin2⟩ := gc_post fuel rev priv0 B N gc env1 inp1 ls1 r2 hE2 hrel1 hnx1 hpend1 hpc1 hO1'
           rcases o2 with ⟨ev2, env2, inp2, ctl2⟩
@@ -316,6 +317,29 @@ theorem gc_outer_body (fuel : Nat) (rev : Nat → Nat) (priv0 : Loc → Option V
           cases ‹Option Val› <;> simp only at hR
           simp [hlr0, hl1, Ctl.goesOn, GcRO, hR]
         · simp [hlr0, hl1, Ctl.goesOn, GcRO]
-        · exact hR.elim
+
+/-- **`_cds_lfht_gc_bucket(bucket, node)`**: for every budget and every oracle that delivers well-typed words passing the
+assertions of the source (`OracleOk`), the run does not fail, its events are accepted by the local automaton from
+`gHead` (`ldHeadG`, `ldNextG`*, `casGc`, again …, each with the address and the values L2 prescribes), and when the
+function returns L2's thread is at the caller's pc (`dAssert` for `_cds_lfht_del`, `rAssert` for `_cds_lfht_replace`);
+no plain store: the private view is unchanged. -/
+theorem gc_bucket_exec (fuel : Nat) (rev : Nat → Nat) (env : Env) (inp : List Val) (x : Thr) (o0 : Out) (rp : Pc)
+    (r : Except String Out) (hE : exec fuel Gen.Src.«lfht._cds_lfht_gc_bucket» env inp = r)
+    (hb : env.vars "bucket" = some (.ptr (.obj x.gbkt))) (hn : env.vars "node" = some (.ptr (.obj x.gnode)))
+    (hB : x.gbkt ≠ 0) (hN : x.gnode ≠ 0) (hrev : RevView rev env.priv)
+    (hpc : x.pc = .gHead) (hrp : retPc x.gcont = some rp)
+    (hO : OracleOk rev { x := x, pend := .none, out := o0 } inp) :
+    ∃ out, r = .ok out ∧ ∃ ls', lr rev { x := x, pend := .none, out := o0 } out.events = some ls' ∧
+      (out.ctl = .blocked ∨ out.ctl = .fuel ∨
+        (out.ctl = .ret none ∧ out.env.priv = env.priv ∧ ls'.pend = .none ∧ ls'.x.pc = rp ∧ ls'.x.gcont = x.gcont ∧
+          OracleOk rev ls' out.inp)) := by
+  subst hE
+  have hshape : Gen.Src.«lfht._cds_lfht_gc_bucket» =
+      .seq _ (.seq _ (.seq _ (.seq _ (.seq _ (.seq _ (.seq _ (.seq _ (.seq _ (.seq _ (.seq _ (.seq _
+        (.loop gcOuter)))))))))))) := rfl
+  rw [hshape]
+  lexec [call_is_removed, call_is_removal_owner, call_is_bucket, pureCall, bind1]
+  trace_state
+  sorry
 
 end UrcuVerif.Src.LfhtR
